@@ -233,3 +233,77 @@ package ompt
 //@   opt protect m.root
 //@   requires m != nil
 //@   callpre prove: n == caller_m.root && proof == caller_proofs && keys == caller_nibs && m == caller_m
+
+// ---------------------------------------------------------------------------
+// C20: state sync over the trie: a node that cannot be realized from the local store is requested
+// under its own hash, in the trie node bucket, with a requester that remembers that hash and this
+// trie; received bytes are deserialized under the remembered hash and the resulting node is resolved
+// against the same trie and builder; leaves and branches resolve the value object in the trie's own
+// object type (after conversion), not the raw bytes object
+// ---------------------------------------------------------------------------
+//@ property C20
+//@ smt all (declare-fun node_own_hash (Iface) Slice)
+//@ func (n node) hash() (h)
+//@   iface
+//@   trusted
+//@   pure
+//@   ensures h == node_own_hash(n)
+//@ func (n node) realize(m) (nn, err)
+//@   iface
+//@   trusted
+//@   modifies *
+//@ func (n node) resolve(m, bd) (err)
+//@   iface
+//@   trusted
+//@   modifies *
+//@ func (m *mpt) resolve(d, pNode)
+//@   arith int
+//@   nosafety
+//@   modifies *
+//@   opt no-callee-pre
+//@   opt inline-none
+//@   requires m != nil
+//@   callpre RequestData: id == db.MerkleTrie && key == node_own_hash(caller_node) && typeof(requester) == typeid(ptr_nodeRequester) && as(ptr_nodeRequester, requester).mpt == m && as(ptr_nodeRequester, requester).hash == key && b == d
+//@   callpre realize: n == caller_node && m == caller_m
+
+//@ smt all (declare-ghost getobj_arg Iface)
+//@ smt all (declare-ghost getobj_res Iface)
+//@ smt all (declare-ghost getobj_changed Bool)
+//@ func (m *mpt) getObject(o) (r, changed, err)
+//@   trusted
+//@   modifies *
+//@   opt ghost:getobj_arg o
+//@   opt ghost:getobj_res r
+//@   opt ghost:getobj_changed changed
+//@ func (r *nodeRequester) OnData(bs, bd) (err)
+//@   arith int
+//@   nosafety
+//@   modifies *
+//@   opt no-callee-pre
+//@   opt inline-none
+//@   opt protect r.hash, r.mpt
+//@   requires r != nil
+//@   callpre deserialize: h == caller_r.hash && serialized == bs
+//@   callpre resolve: m == caller_r.mpt && bd == caller_bd
+//@ func (n *leaf) resolve(m, bd) (err)
+//@   arith int
+//@   nosafety
+//@   modifies *
+//@   opt no-callee-pre
+//@   opt inline-none
+//@   opt protect n.value
+//@   requires n != nil
+//@   callpre getObject: o == n.value
+//@   callpre Resolve: (ghost(getobj_changed) ==> o == ghost(getobj_res)) && (!ghost(getobj_changed) ==> o == ghost(getobj_arg)) && builder == bd && o == n.value
+//@ func (n *branch) resolve(m, bd) (err)
+//@   arith int
+//@   nosafety
+//@   modifies *
+//@   opt no-callee-pre
+//@   opt inline-none
+//@   opt protect n.value
+//@   requires n != nil
+//@   callpre getObject: o == n.value
+//@   callpre Resolve: (ghost(getobj_changed) ==> o == ghost(getobj_res)) && (!ghost(getobj_changed) ==> o == ghost(getobj_arg)) && builder == bd && o == n.value
+//@   callpre mpt.resolve: d == bd && m == caller_m
+//@   loop 0: invariant true
